@@ -1459,6 +1459,12 @@ class NoPanic:
             return self.rec(fn, b, "index-sample", coarse(P, args[2]), "open", "index::sample panics when amount > length")
         if name == "with_capacity" and (sp.startswith("alloc::vec::Vec") or sp.startswith("alloc::string::String")) and args:
             u = B.upper(args[0], b)
+            a0_ = values.strip_payload(args[0])
+            if u > ISIZE_MAX // 64 and is_call(a0_) and callee_name(a0_[1]) in ("saturating_mul", "wrapping_mul") and "core::num" in a0_[1] and len(a0_[2]) == 2:
+                # a product of two bounded, non-negative factors
+                ux_, uy_ = B.upper(a0_[2][0], b), B.upper(a0_[2][1], b)
+                if B.lower(a0_[2][0], b) >= 0 and B.lower(a0_[2][1], b) >= 0 and ux_ != INF and uy_ != INF:
+                    u = min(u, ux_ * uy_)
             if u <= ISIZE_MAX // 64:
                 return self.rec(fn, b, "with_capacity", coarse(P, args[0]), "proved", "capacity <= %s" % u, trivial=(args[0][0] == "int"))
             la = B.lin(args[0])
